@@ -8,7 +8,6 @@ import (
 	"encoding/hex"
 	"fmt"
 	"math/rand"
-	"os"
 	"strconv"
 	"strings"
 )
@@ -18,7 +17,6 @@ type pgen struct {
 	rng   *rand.Rand
 	tier  string
 	only  string
-	fixed map[string]bool // operators whose regenerated table row is the repaired one (set by tools/checks/C18.py)
 }
 
 func (g *pgen) add(op, p, in string, kv ...string) {
@@ -34,9 +32,6 @@ func (g *pgen) add(op, p, in string, kv ...string) {
 	}
 	if !has {
 		all = append(all, "end", "C")
-	}
-	if g.fixed[op] {
-		all = append(all, "model", "fixed") // the Lean driver answers with the repaired model (ellipsisBFixed, ioReaderFixed)
 	}
 	g.cases = append(g.cases, newCase(len(g.cases)+1, all...))
 }
@@ -137,12 +132,7 @@ func chunked(all []string, k int) [][]string {
 }
 
 func genPluginCases(tier string, seed int64, only string) []*Case {
-	g := &pgen{rng: rand.New(rand.NewSource(seed*7919 + 18)), tier: tier, only: only, fixed: map[string]bool{}}
-	for _, op := range strings.Split(os.Getenv("VERIF_C18_FIXED"), ",") {
-		if op != "" {
-			g.fixed[op] = true
-		}
-	}
+	g := &pgen{rng: rand.New(rand.NewSource(seed*7919 + 18)), tier: tier, only: only}
 	g.genStrconv()
 	g.genBase64()
 	g.genText()
@@ -452,7 +442,7 @@ func (g *pgen) genText() {
 		}
 	}
 	for _, sz := range []int{1, 2, 11, 12, 13, 1024} {
-		for _, cs := range []string{"ab", "abcdefghijklmnopqrstuvwxyz", "é日😀", "xyz"} {
+		for _, cs := range []string{"ab", "abcdefghijklmnopqrstuvwxyz", "é日😀", "xyz", "x", "é"} {
 			g.add("strings.Random", fmt.Sprintf("%d,%s", sz, hx(cs)), hxs("a", "b", "c"))
 			g.add("bytes.Random", fmt.Sprintf("%d,%s", sz, hx(cs)), hxs("a", "b"))
 		}
